@@ -335,6 +335,7 @@ func idpFaultGrammar(r *Rng, provider string) (endpoint string, a Answer) {
 // C10: logins during which the identity provider answers from the fault grammar.
 func genC10(r *Rng) *Plan {
 	cfg := swarmConfig(r)
+	cfg.AlsoCognito = r.Chance(1, 3)
 	cfg.Provider = r.Pick("okta", "okta", "google")
 	if cfg.Provider == "google" {
 		cfg.Slug = "google"
